@@ -194,6 +194,22 @@ static std::string gepExpr(Type *srcElemTy, const std::string &base, ArrayRef<st
   return "(&" + e + ")";
 }
 
+// lvalue form of a GEP (no address-of): used to access memory directly instead of through a materialised
+// pointer -- CBMC 6.11 mis-evaluates *(&s.arr[sym].inner[k]) for arrays of array-containing structs at a
+// non-zero struct offset (minimal reproducer in DESIGN.md), while the direct access is handled correctly.
+static std::string gepLvalue(Type *srcElemTy, const std::string &base, ArrayRef<std::string> idx, ArrayRef<Value*> idxV) {
+  std::string e;
+  Type *cur = srcElemTy;
+  bool zero0 = false;
+  if (auto *CI = dyn_cast<ConstantInt>(idxV[0])) zero0 = CI->isZero();
+  if (zero0) e = "(*" + base + ")"; else e = "(" + base + ")[(s64)" + idx[0] + "]";
+  for (unsigned i = 1; i < idx.size(); ++i) {
+    if (auto *S = dyn_cast<StructType>(cur)) { unsigned k = cast<ConstantInt>(idxV[i])->getZExtValue(); e += ".f" + std::to_string(k); cur = S->getElementType(k); }
+    else if (auto *A = dyn_cast<ArrayType>(cur)) { e += ".e[(s64)" + idx[i] + "]"; cur = A->getElementType(); }
+  }
+  return e;
+}
+
 static std::string castTo(Type *T, const std::string &e) { return "((" + ctype(T) + ")" + e + ")"; }
 
 static std::string sty(Type *T) { // signed counterpart
@@ -616,6 +632,22 @@ struct FnEmitter {
     return true;
   }
 
+  bool special(CallBase &CI, const std::string &ind) {
+    Function *CF = CI.getCalledFunction();
+    if (!CF) return false;
+    StringRef fnm = CF->getName();
+    if (fnm == "v_assert" && CI.arg_size() == 2) {
+      std::string m; if (!constString(CI.getArgOperand(1), m)) m = "harness property";
+      O << ind << "__CPROVER_assert(" << val(CI.getArgOperand(0)) << ", \"" << cEscape(m) << " [" << F.getName().str().substr(0, 60) << "]\");\n"; return true;
+    }
+    if (fnm == "v_witness" && CI.arg_size() == 1) {
+      std::string m; if (!constString(CI.getArgOperand(0), m)) m = "w";
+      O << ind << "__CPROVER_assert(0, \"WITNESS:" << cEscape(m) << " [" << F.getName().str().substr(0, 60) << "]\");\n"; return true;
+    }
+    if (fnm == "v_assume" && CI.arg_size() == 1) { O << ind << "__CPROVER_assume(" << val(CI.getArgOperand(0)) << ");\n"; return true; }
+    return false;
+  }
+
   void emit() {
     // name everything
     unsigned ai = 0;
@@ -626,6 +658,7 @@ struct FnEmitter {
       for (Instruction &I : B) if (!I.getType()->isVoidTy()) names[&I] = "v" + std::to_string(nv++);
     }
     O << fproto(F, true) << " {\n";
+    if (F.getName().startswith("harness_")) O << "  v_run_static_init();\n";
     // declarations
     for (BasicBlock &B : F) for (Instruction &I : B) {
       if (I.getType()->isVoidTy()) continue;
@@ -644,6 +677,21 @@ struct FnEmitter {
       for (Instruction &I : B) inst(I);
     }
     O << "}\n\n";
+  }
+
+  // direct lvalue for the memory designated by pointer P at instruction I, or "" (then *P is used)
+  std::string directLvalue(Value *P, Instruction &I) {
+    auto *G = dyn_cast<GetElementPtrInst>(P);
+    if (!G || G->getParent() != I.getParent()) return "";
+    if (G->getSourceElementType()->isIntegerTy(8)) return "";
+    if (G->getResultElementType() != cast<PointerType>(P->getType())->getPointerElementType()) return "";
+    if (G->getNumIndices() < 2) return "";
+    bool sym = false;
+    for (auto it = G->idx_begin(); it != G->idx_end(); ++it) if (!isa<ConstantInt>(*it)) sym = true;
+    if (!sym) return "";
+    std::vector<std::string> idx; std::vector<Value*> iv;
+    for (auto it = G->idx_begin(); it != G->idx_end(); ++it) { idx.push_back(sval(*it)); iv.push_back(*it); }
+    return gepLvalue(G->getSourceElementType(), val(G->getPointerOperand()), idx, iv);
   }
 
   void binop(BinaryOperator &I, const std::string &ind) {
@@ -714,6 +762,7 @@ struct FnEmitter {
           }
         }
       }
+      { std::string dl = directLvalue(LI->getPointerOperand(), I); if (!dl.empty()) { O << ind << lhs << dl << ";\n"; return; } }
       O << ind << lhs << "*" << val(LI->getPointerOperand()) << ";\n"; return; }
     if (auto *SI = dyn_cast<StoreInst>(&I)) {
       if (STOREHOOK) O << ind << "v_store_hook((u8*)" << val(SI->getPointerOperand()) << ");\n";
@@ -729,6 +778,7 @@ struct FnEmitter {
             }
           }
         } }
+      { std::string dl = directLvalue(SI->getPointerOperand(), I); if (!dl.empty()) { O << ind << dl << " = " << val(SI->getValueOperand()) << ";\n"; return; } }
       O << ind << "*" << val(SI->getPointerOperand()) << " = " << val(SI->getValueOperand()) << ";\n"; return; }
     if (auto *G = dyn_cast<GetElementPtrInst>(&I)) {
       if (G->getSourceElementType()->isIntegerTy(8) && G->hasAllConstantIndices()) {
@@ -862,18 +912,7 @@ struct FnEmitter {
           }
         }
       }
-      if (Function *CF = CI->getCalledFunction()) {
-        StringRef fnm = CF->getName();
-        if (fnm == "v_assert" && CI->arg_size() == 2) {
-          std::string m; if (!constString(CI->getArgOperand(1), m)) m = "harness property";
-          O << ind << "__CPROVER_assert(" << val(CI->getArgOperand(0)) << ", \"" << cEscape(m) << " [" << F.getName().str().substr(0, 60) << "]\");\n"; return;
-        }
-        if (fnm == "v_witness" && CI->arg_size() == 1) {
-          std::string m; if (!constString(CI->getArgOperand(0), m)) m = "w";
-          O << ind << "__CPROVER_assert(0, \"WITNESS:" << cEscape(m) << " [" << F.getName().str().substr(0, 60) << "]\");\n"; return;
-        }
-        if (fnm == "v_assume" && CI->arg_size() == 1) { O << ind << "__CPROVER_assume(" << val(CI->getArgOperand(0)) << ");\n"; return; }
-      }
+      if (special(*CI, ind)) return;
       O << ind << lhs << callExpr(*CI) << ";\n";
       if (EH && !CI->doesNotThrow()) {
         O << ind << "if (v_exc) " << retDummy() << "\n";
@@ -881,7 +920,7 @@ struct FnEmitter {
       return;
     }
     if (auto *II = dyn_cast<InvokeInst>(&I)) {
-      if (!intrinsic(*II, ind)) O << ind << lhs << callExpr(*II) << ";\n";
+      if (!intrinsic(*II, ind) && !special(*II, ind)) O << ind << lhs << callExpr(*II) << ";\n";
       if (EH) { O << ind << "if (v_exc) {\n"; jump(I.getParent(), II->getUnwindDest(), "    "); O << ind << "}\n"; }
       jump(I.getParent(), II->getNormalDest(), ind); return;
     }
@@ -983,6 +1022,17 @@ int main(int argc, char **argv) {
     } else if (os && FT->getReturnType()->isVoidTy()) {
       B << FnEmitter::fproto(F, true) << " { }\n"; stubbed.push_back(n.str());
     }
+  }
+  // static initialisers (llvm.global_ctors) in priority order; harness entries call this first
+  {
+    std::vector<std::pair<uint64_t, Function*>> ctors;
+    if (GlobalVariable *GC = M->getGlobalVariable("llvm.global_ctors")) if (GC->hasInitializer()) if (auto *CA = dyn_cast<ConstantArray>(GC->getInitializer()))
+      for (unsigned i = 0; i < CA->getNumOperands(); ++i) { auto *CS = cast<ConstantStruct>(CA->getOperand(i)); auto *fn = dyn_cast<Function>(CS->getOperand(1)->stripPointerCasts()); if (fn) ctors.push_back({cast<ConstantInt>(CS->getOperand(0))->getZExtValue(), fn}); }
+    std::stable_sort(ctors.begin(), ctors.end(), [](auto &a, auto &b) { return a.first < b.first; });
+    B << "void v_run_static_init(void) {\n  static int done; if (done) return; done = 1;\n";
+    for (auto &c : ctors) B << "  " << gname(c.second) << "();\n";
+    B << "}\n";
+    P << "void v_run_static_init(void);\n";
   }
   // exception type matching from the typeinfo graph
   {
